@@ -49,7 +49,7 @@ class Collector:
             if norm is not None:
                 key = "%s:%s" % (d.what, norm(d.tag))
             if deep_fields and d.path and d.path[0] in deep_fields:
-                key = "deep-assigned-submessage"
+                key = "deep-assigned-submessage:%s" % getattr(d, "what", "diff")
             self.add("%s:%s" % (site, key), prefix + str(d))
 
     def result(self):
